@@ -119,6 +119,7 @@ function C2(x,y){return -C1(x,y);}
 function C0(x,y){return 0;}
 function CT(x,y){throw 'CMP';}
 function CN(x,y){var c=C1(x,y);return c<0?-0.5:c>0?'1':undefined;}
+function AI(k){var s=String(k),u=s>>>0;return String(u)===s&&u!==4294967295;}
 function IR(t,k){var s=String(k),u=s>>>0;if(String(u)!==s||u===4294967295)return true;return u<t.length;}
 function LW(t){return gD(t,'length').writable;}
 function CL(t,real){
@@ -360,7 +361,7 @@ class Gen:
             return "t.length=1;"
         if k == "delete":
             st.sparse = True
-            return "delete t[%s];" % r.choice(["0", "1", "2", "3", "t.length-1", "t.length>>1"])
+            return "if(t.length>0)delete t[%s];" % r.choice(["0", "1", "2", "3", "t.length-1", "t.length>>1"])
         if k == "grow":
             st.lk = "0"
             st.sparse = True
@@ -568,9 +569,11 @@ class Gen:
             return None
         st = Step("delete", None, guard=False, sparse=True)
         k = self.r.choice(["0", "1", "2", "3", "t.length-1", "t.length>>1", "t.length", "'length'", "4294967294", "'x'", "5"])
-        if k == "'x'" and AVOID_DELETE_NAMED in self.avoid:
-            k = "4"
-        st.body = lambda M: "return delete t[%s];" % k
+        if AVOID_DELETE_NAMED in self.avoid:
+            # (t.length itself is a NAMED key when length is 4294967295)
+            st.body = lambda M: "var k=%s;if(!AI(k)&&k!=='length')return 'named-key';return delete t[k];" % k
+        else:
+            st.body = lambda M: "return delete t[%s];" % k
         return st
 
     def op_setlen(self, p, a):
